@@ -36,6 +36,7 @@ type World struct {
 	SwitchPool bool // always consider switching at pool operations
 	Switches   int
 	SchedHash  uint64
+	HashSeed   uint64 // seed of the string hash seam (tape-chosen by the harness; 0 = default)
 	curOp      int // harness-maintained: id of the operation that is running (for provenance)
 	Events     func(s string)
 }
@@ -78,6 +79,39 @@ func End() { cur = nil }
 
 //go:norace
 func Cur() *World { return cur }
+
+// HashSeam reports whether a world is active (string hashing is then owned by the simulator).
+//
+//go:norace
+func HashSeam() bool { return cur != nil }
+
+// StrHash replaces runtime.strhash (per-process random seed) inside a world: FNV-1a keyed by the
+// world's HashSeed, never 0 (the library reserves 0).
+//
+//go:norace
+func StrHash(s string) uint64 {
+	h := uint64(0xcbf29ce484222325)
+	if w := cur; w != nil {
+		h ^= w.HashSeed
+	}
+	for i := 0; i < len(s); i++ {
+		h ^= uint64(s[i])
+		h *= 0x100000001b3
+	}
+	if h == 0 {
+		return 1
+	}
+	return h
+}
+
+// DropPools forgets every parked object: the next Get of every pool is fresh (pristine environment).
+//
+//go:norace
+func (w *World) DropPools() {
+	for i := range w.pools {
+		w.pools[i] = nil
+	}
+}
 
 //go:norace
 func (w *World) SetOp(id int) { w.curOp = id }
@@ -406,7 +440,11 @@ func (p *Pool) Get() interface{} {
 		}
 		i := len(s.free) - 1 - k
 		fo := s.free[i]
-		copy(s.free[i:], s.free[i+1:])
+		// NOTICE: no copy() here - runtime.slicecopy is race-instrumented even when called from a
+		// norace function, and the free list is deliberately shared between tasks without synchronisation
+		for j := i; j+1 < len(s.free); j++ {
+			s.free[j] = s.free[j+1]
+		}
 		s.free[len(s.free)-1] = freeObj{}
 		s.free = s.free[:len(s.free)-1]
 		w.Stats[StatPoolRecycled]++
